@@ -13,6 +13,7 @@ the calls being the position of `advance` (quiescent) or of `fire` / `runCb`
 (a callback that has fired but is still waiting for the mutex) in the list.
 -/
 import SigModel.Lemmas.Transient
+import SigModel.Lemmas.TransientRooms
 
 namespace SigModel.Transient
 open SigModel.Generated.Transient
@@ -364,5 +365,153 @@ example :
     a.1.data = [("a", "v")] ∧ a.2.value "a" = some "v" ∧
     b.1.data = [("b", "w")] ∧ b.2.value "a" = none ∧ b.2.value "b" = some "w" := by
   decide
+
+/-! ## 5. The embedding: the listeners of a room's data are the sessions in that room
+
+`Model/TransientRooms.lean`: room objects (each with its own store), sessions, the hub's
+table of rooms; a room object whose last session left, or that the backend deleted, is
+forgotten by the hub while its store — and its armed TTL timers — lives on.  A stale
+listener of such a store is told about an expiry that belongs to a room it is no longer
+in: the replica of the room it *is* in diverges.  The theorems are about the listener
+*set* of every store, at every moment, for every sequence of joins, leaves, room
+switches, session closes, sets, removes, room deletions and passages of time. -/
+
+/-- Where the source touches a room's store: one field, mentioned by methods of `Room` only (the store is
+not handed out); listeners are added in `Room.AddSession` and nowhere else in the package, removed in
+`Room.RemoveSession` (and at most, besides, in `Room.Close`); a session leaves its room through
+`Room.RemoveSession` on every way out (leave, switch, close, room deleted) and joins through
+`Room.AddSession` after having left the previous room; every room object gets a fresh store. -/
+theorem C14_listener_call_sites :
+    addListenerSites = ["room.go:Room.AddSession"] ∧
+    "room.go:Room.RemoveSession" ∈ removeListenerSites ∧
+    removeListenerSites.all (fun s => s == "room.go:Room.RemoveSession" || s == "room.go:Room.Close") = true ∧
+    transientDataFields = ["Room.transientData"] ∧ transientDataUsersOutsideRoom = [] ∧
+    embeddingFlow = ["ClientSession.doLeaveRoom->Room.RemoveSession", "ClientSession.doLeaveRoom:SetRoom(nil)<RemoveSession",
+      "ClientSession.LeaveRoomWithMessage->doLeaveRoom", "ClientSession.SetFederationClient->doLeaveRoom",
+      "ClientSession.LeaveRoom->LeaveRoomWithMessage", "ClientSession.closeAndWait->Hub.removeSession",
+      "Hub.removeSession->LeaveRoom", "Hub.processJoinRoom:LeaveRoom<AddSession", "Hub.processJoinRoom:SetRoom<AddSession",
+      "Hub.processRoom->LeaveRoomWithMessage", "Hub.processRoom:HasSession<processJoinRoom",
+      "Hub.processRoomDeleted:Room.Close<LeaveRoom", "NewRoom:transientData=NewTransientData()"] := by decide
+
+/-- On *every* control-flow path of `Room.AddSession` that a client session new to the room can take the
+session is registered, and on every path of `Room.RemoveSession` that takes it out of `r.sessions` —
+other sessions remaining or not — it is unregistered (read off the extracted paths). -/
+theorem C14_membership_paths_register : Emb.current.Ok := ⟨by decide, by decide, by decide⟩
+
+/-- The last session leaving is what closes the room (`r.hub.removeRoom`, `r.doClose`), nothing else in
+`RemoveSession` does. -/
+theorem C14_last_leave_closes_room :
+    allPass removeSessionPaths (fun p => p.contains "-others") ["removeRoom"] = true ∧
+    allPass removeSessionPaths (fun p => p.contains "-others") ["close"] = true ∧
+    (removeSessionPaths.filter (fun p => p.contains "+others" || p.contains "+absent")).all
+      (fun p => !p.contains "removeRoom" && !p.contains "close") = true := by decide
+
+/-- The invariant, spelled out. -/
+def ListenersAreMembers (w : World) : Prop :=
+  (∀ o ∈ w.objs, (∀ l, l ∈ o.td.listeners ↔ l ∈ o.members) ∧ (o.live = false → o.td.listeners = [])) ∧
+  (∀ s i, w.roomOf s = some i ↔ ∃ o ∈ w.objs, o.oid = i ∧ s ∈ o.members) ∧
+  (∀ a ∈ w.objs, ∀ b ∈ w.objs, ∀ s, s ∈ a.members → s ∈ b.members → a = b)
+
+theorem ListenersAreMembers_of_Inv {w : World} (h : Inv w) : ListenersAreMembers w := by
+  refine ⟨fun o ho => ⟨h.lm o ho, fun hd => ?_⟩, fun s i => ⟨h.room_mem s i, ?_⟩,
+    fun a ha b hb s hsa hsb => h.member_unique ha hb hsa hsb⟩
+  · have hm := h.dead o ho hd
+    rw [List.eq_nil_iff_forall_not_mem]
+    intro l hl
+    have := (h.lm o ho l).mp hl
+    rw [hm] at this; cases this
+  · rintro ⟨o, ho, hoid, hmem⟩
+    rw [← hoid]; exact h.mem_room o ho s hmem
+
+/-- **Listener set = member set**, for every source that registers on join, unregisters on every way of
+leaving *and* when the backend deletes the room: after every sequence of operations the listeners of every
+room object's store are exactly the sessions in that room object, a forgotten room object has no listeners
+at all, a session's room pointer is the one object that lists it, and no session is in two. -/
+theorem C14_listeners_are_members (c : Cfg) (e : Emb) (he : e.Ok)
+    (hd : (e.closeUnreg || e.absentUnreg) = true) (ops : List ROp) :
+    ListenersAreMembers (runW c e World.init ops) := by
+  have := (Good_run c he ops (Or.inr hd) Inv_init (WConv_init (fun _ => []))).1
+  rw [runWV_fst] at this
+  exact ListenersAreMembers_of_Inv this
+
+/-- The current source: the same for every history in which the backend does not delete a room
+(missing: `Room.Close` drops the sessions without unregistering them, and the `RemoveSession` that
+follows returns early — open finding `C14-room-delete-keeps-listeners`, counter-example below). -/
+theorem C14_listeners_are_members_partial (ops : List ROp) (hdel : ∀ op ∈ ops, op.isDel = false) :
+    ListenersAreMembers (runW Cfg.current Emb.current World.init ops) := by
+  have := (Good_run Cfg.current C14_membership_paths_register ops (Or.inl hdel) Inv_init
+    (WConv_init (fun _ => []))).1
+  rw [runWV_fst] at this
+  exact ListenersAreMembers_of_Inv this
+
+/-- **Every session's replica is the data of the room it is in** — emptied when it joins a room, then the
+snapshot (if one is sent) and every notification applied in order — after every sequence of operations. -/
+theorem C14_room_replica_converges (c : Cfg) (e : Emb) (he : e.Ok)
+    (hd : (e.closeUnreg || e.absentUnreg) = true) (ops : List ROp) :
+    let r := runWV c e World.init (fun _ => []) ops
+    ∀ s i, r.1.roomOf s = some i → ∃ o ∈ r.1.objs, o.oid = i ∧ r.2 s = o.td.data := by
+  intro r s i hr
+  obtain ⟨hi, hc⟩ := Good_run c he ops (Or.inr hd) Inv_init (WConv_init (fun _ => []))
+  obtain ⟨o, ho, hoid, hmem⟩ := hi.room_mem s i hr
+  exact ⟨o, ho, hoid, hc o ho s hmem⟩
+
+theorem C14_room_replica_converges_partial (ops : List ROp) (hdel : ∀ op ∈ ops, op.isDel = false) :
+    let r := runWV Cfg.current Emb.current World.init (fun _ => []) ops
+    ∀ s i, r.1.roomOf s = some i → ∃ o ∈ r.1.objs, o.oid = i ∧ r.2 s = o.td.data := by
+  intro r s i hr
+  obtain ⟨hi, hc⟩ := Good_run Cfg.current C14_membership_paths_register ops (Or.inl hdel) Inv_init
+    (WConv_init (fun _ => []))
+  obtain ⟨o, ho, hoid, hmem⟩ := hi.room_mem s i hr
+  exact ⟨o, ho, hoid, hc o ho s hmem⟩
+
+/-- Every room object's store — also of rooms closed meanwhile — is a run of store operations (API calls
+and quiescent passages of time) from the empty store, so §1–§3 hold for each of them; in particular its
+data is the ideal store of that run: TTLs honoured, the latest request governs. -/
+theorem C14_room_stores_are_store_runs (e : Emb) (ops : List ROp) :
+    ∀ o ∈ (runW Cfg.current e World.init ops).objs,
+      ∃ sops, (∀ op ∈ sops, op.quiescent = true) ∧ o.td = run init sops ∧
+        ∀ k, kvGet o.td.data k = (Spec.run {} sops).value k := by
+  intro o ho
+  obtain ⟨sops, hrun, hq⟩ := Hist_run Cfg.current e ops (Hist_init Cfg.current) o ho
+  refine ⟨sops, hq, hrun, fun k => ?_⟩
+  rw [hrun]
+  exact C14_ttl_governed_by_latest sops hq k
+
+/-- Non-vacuity: two sessions, a ttl pending while the last one leaves and the room is taken again, a
+switch to the other room; the invariant's objects exist, replicas are right, the old store expired alone. -/
+example :
+    let ops : List ROp := [.join 0 1, .join 1 1, .set 0 "a" (some "x") 20, .leave 0, .join 1 2,
+      .join 0 1, .set 0 "a" (some "y") 0, .bset 2 "b" "z" 30, .adv 25]
+    let r := runWV Cfg.current Emb.current World.init (fun _ => []) ops
+    r.1.objs.map (fun o => (o.rid, o.live, o.members, o.td.listeners)) =
+      [(1, false, [], []), (2, true, [1], [1]), (1, true, [0], [0])] ∧
+    r.1.objs.map (fun o => o.td.data) = [[], [("b", "z")], [("a", "y")]] ∧
+    r.2 0 = [("a", "y")] ∧ r.2 1 = [("b", "z")] ∧ r.1.roomOf 0 = some 2 ∧ r.1.roomOf 1 = some 1 := by
+  decide
+
+/-- The hypothesis on the last-leave path is necessary (what the seeded change C14-4 does): if the last
+session to leave is not unregistered, the closed room's pending expiry reaches it in the room it is in
+now — it is told to remove a value that room still has. -/
+theorem C14_last_leave_must_unregister :
+    let e : Emb := { joinRegisters := true, leaveOthersUnreg := true, leaveLastUnreg := false,
+                     absentUnreg := true, closeUnreg := true }
+    let w := runW Cfg.repaired e World.init
+      [.join 0 1, .set 0 "a" (some "v") 20, .leave 0, .join 0 1, .set 0 "a" (some "v") 0]
+    w.objs.map (fun o => (o.live, o.members, o.td.listeners)) = [(false, [], [0]), (true, [0], [0])] ∧
+    (stepW Cfg.repaired e w (.adv 25)).out = [(0, .remove "a" "v")] ∧
+    (stepW Cfg.repaired e w (.adv 25)).w.objs.map (fun o => (o.live, o.td.data)) =
+      [(false, []), (true, [("a", "v")])] := by decide
+
+/-- Counter-example to the full statement on the source as found (replayed on the code:
+`corpus/C14/room-deleted-keeps-listener.jsonl`): the backend deletes the room while a ttl is pending; the
+session joins the room again (a new object) and sets the key without ttl; the old deadline passes: the
+deleted room's store still lists the session and tells it to remove the value. -/
+theorem C14_room_delete_keeps_listener :
+    let w := runW Cfg.repaired Emb.asFound World.init
+      [.join 0 1, .set 0 "a" (some "v") 20, .del 1, .join 0 1, .set 0 "a" (some "v") 0]
+    w.objs.map (fun o => (o.live, o.members, o.td.listeners)) = [(false, [], [0]), (true, [0], [0])] ∧
+    (stepW Cfg.repaired Emb.asFound w (.adv 25)).out = [(0, .remove "a" "v")] ∧
+    (stepW Cfg.repaired Emb.asFound w (.adv 25)).w.objs.map (fun o => (o.live, o.td.data)) =
+      [(false, []), (true, [("a", "v")])] := by decide
 
 end SigModel.Transient
